@@ -7,8 +7,9 @@
    What is NOT proved (DESIGN.md section 6): "the largest attribution lies in the region" for the sampled estimators
    (RISE, HSIC, Lime, KernelShap on finite samples, Sobol after the bicubic resize) — support evidence only, checked
    on the implementation's output under margin guards by harness/c05.py.  For Sobol before upsampling it IS proved
-   (C05_sobol_inert_minimal); for Occlusion the full statement is kept below as a comment. *)
+   (C05_sobol_inert_minimal) and for Occlusion too (C05_occlusion_max_in_region). *)
 From Xpl Require Import Base.Tensor C05.Spec C05.Proofs C06.Proofs C08.Proofs.
+From Xpl Require C07.Spec C05.LimeLink.   (* not imported: C07.Model and C06.Model share constructor names *)
 Close Scope Qc_scope. Open Scope nat_scope.
 
 (* ------------------------------------------------------------------ nearest_block *)
@@ -66,11 +67,7 @@ Theorem C05_sobol_cell_of_dim :
     (forall a b, a < g -> b < g -> cell d (sobol_post g stis) a b = nth (a * g + b) stis d) /\
     (forall k, k < g * g -> cell d (sobol_post g stis) (k / g) (k mod g) = nth k stis d) /\
     (length stis = g * g -> concat (sobol_post g stis) = stis).
-Proof.
-  intros A d g design stis. split; [intros; apply sobol_mask_cell; assumption|].
-  split; [intros; apply sobol_post_cell; assumption|].
-  split; [intros; apply sobol_post_dim; assumption | apply sobol_post_flat].
-Qed.
+Proof. exact @sobol_cell_of_dim. Qed.
 Print Assumptions C05_sobol_cell_of_dim.
 
 (* whatever the per-dimension statistic F: cell (a, b) of the Sobol map is F of design column a*g + b *)
@@ -87,7 +84,7 @@ Theorem C05_hsic_cell_of_dim :
   forall (A : Type) (d : A) g n (masks : list (list (list A))) (scores : list A) a b, a < g -> b < g ->
     nth (b * g + a) (hsic_dims_lit d g n masks) [] = map (fun k => cell d (nth k masks []) a b) (seq 0 n) /\
     cell d (hsic_post_lit d g scores) a b = nth (b * g + a) scores d.
-Proof. intros. split; [apply hsic_dims_cell | apply hsic_post_cell]; assumption. Qed.
+Proof. exact @hsic_cell_of_dim. Qed.
 Print Assumptions C05_hsic_cell_of_dim.
 
 (* the explicit transpose is exactly the inverse of the implicit one: for every per-dimension statistic F
@@ -107,10 +104,7 @@ Theorem C05_index_maps_are_C08 :
   (forall g n (design : list (list Qc)), length design = n ->
       hsic_dims_lit 0%Qc g n (sobol_masks g design) = hsic_dims g design) /\
   (forall g (scores : list Qc), concat (hsic_post_lit 0%Qc g scores) = hsic_post g scores).
-Proof.
-  split; [exact near_is_nb_idx|]. split; [exact up_at_cell_of|].
-  split; [exact hsic_dims_lit_C08 | exact hsic_post_lit_C08].
-Qed.
+Proof. exact index_maps_are_C08. Qed.
 Print Assumptions C05_index_maps_are_C08.
 
 (* ------------------------------------------------------------------ occlusion_zero_outside *)
@@ -126,39 +120,28 @@ Theorem C05_occlusion_zero_outside :
     (forall P, In P (patches g) -> covers g P pos = true ->
         forall p, p < geom_npos g -> covers g P p = true -> R p = false) ->
     nthq m pos = 0%Qc.
-Proof.
-  intros score g bs v xs ts R m pos Hok Hbs Hxs Hig Hm Hpos Hun.
-  apply (occlusion_zero_outside score g bs v xs ts R m pos); try assumption.
-  - intros x x' t [Hl Hk]. apply Hig; assumption.
-  - unfold occl_untouched. apply forallb_forall. intros P HP.
-    destruct (covers g P pos) eqn:Ec; [|reflexivity]. cbn [negb orb].
-    destruct (patch_meets g R P) eqn:Em; [|reflexivity]. exfalso.
-    unfold patch_meets in Em. apply existsb_exists in Em. destruct Em as [p [Hp Hcr]]. apply in_seq in Hp.
-    apply andb_true_iff in Hcr. destruct Hcr as [Hc HR].
-    rewrite (Hun P HP Ec p) in HR by (try assumption; lia). discriminate.
-Qed.
+Proof. exact occlusion_zero_outside_words. Qed.
 Print Assumptions C05_occlusion_zero_outside.
 
 (* ------------------------------------------------------------------ sobol_zero_inert *)
 (* if the score depends only on the features of R, a grid cell none of whose pixels (the pixels that read the cell
-   through the nearest upsampling) lies in R gets a Jansen total-order index of exactly 0 before upsampling:
-   inpainting, blurring (any baseline x0) and amplitude, every forward batch size, every replicated design,
-   every H, W (non-square included), C and grid size *)
+   through the nearest upsampling) lies in R gets a total-order index of exactly 0 before upsampling, for the five
+   estimators (Jansen unconditionally; Homma, Saltelli, Janon when the outputs on A have a non-zero variance — they
+   divide by it; Glen given in addition what a square root does on a square): inpainting, blurring (any baseline x0)
+   and amplitude, every forward batch size (None included), every replicated design, every H, W (non-square
+   included), C and grid size (grids finer than the image included) *)
 Theorem C05_sobol_zero_inert :
   forall (score : list Qc -> list Qc -> Qc) pf g H W C bs n A B x t (R : nat -> bool) i,
     bs_valid bs -> is_matrix n (g * g) A -> is_matrix n (g * g) B -> i < g * g ->
     (forall x x' t, length x = length x' ->
         (forall k, R (k / C) = true -> nthq x k = nthq x' k) -> score x t = score x' t) ->
     (forall pos, pos < H * W -> nb_idx g H (pos / W) * g + nb_idx g W (pos mod W) = i -> R pos = false) ->
-    nthq (nth 0 (sobol_explain score jansen pf g H W C bs n (replicated_design (g * g) A B) [x] [t]) []) i = 0%Qc.
-Proof.
-  intros score pf g H W C bs n A B x t R i Hb HA HB Hi Hig Hin.
-  apply (sobol_zero_inert score pf g H W C bs n A B x t R i); try assumption.
-  - intros y y' t' [Hl Hk]. apply Hig; assumption.
-  - unfold inert_cell. apply forallb_forall. intros pos Hp. apply in_seq in Hp.
-    destruct (Nat.eqb (cell_of g H W pos) i) eqn:E; [|reflexivity]. cbn [negb orb].
-    apply Nat.eqb_eq in E. rewrite (Hin pos) by (try assumption; lia). reflexivity.
-Qed.
+    let low est := nth 0 (sobol_explain score est pf g H W C bs n (replicated_design (g * g) A B) [x] [t]) [] in
+    let fA := map (fun m => score (perturb (pf x) g H W C x m) t) A in
+    nthq (low jansen) i = 0%Qc /\
+    (Vpop fA <> 0%Qc -> nthq (low homma) i = 0%Qc /\ nthq (low saltelli) i = 0%Qc /\ nthq (low janon) i = 0%Qc /\
+       forall sqrt : Qc -> Qc, sqrt (Vpop fA * Vpop fA)%Qc = Vpop fA -> nthq (low (glen sqrt)) i = 0%Qc).
+Proof. exact sobol_zero_inert_words. Qed.
 Print Assumptions C05_sobol_zero_inert.
 
 (* hence, with at least two design points, no such cell beats any cell of the low-resolution map: its largest
@@ -193,12 +176,49 @@ Theorem C05_lime_same_segment :
 Proof. exact @lime_same_segment. Qed.
 Print Assumptions C05_lime_same_segment.
 
+(* the two gathers above are those of Lime.explain / KernelShap.explain as modelled by C07 (C07's model is tied to the
+   implementation by C07's correspondence, and to these gathers by this property's lime_index stream): for every
+   batch size, the returned map is lime_gather of the fitted coefficients, and query i keeps feature p iff
+   lime_mask mapping z_i is set at position p / C (reference of channel p mod C otherwise) *)
+Theorem C05_lime_explain_one_mapping :
+  forall (score : list Qc -> list Qc -> Qc) (karg : list Qc -> list bool -> list Qc -> Qc)
+         (fit : list (list bool) -> list Qc -> list Qc -> list Qc) B k ref x t mapping Z,
+    1 <= B -> C07.Spec.lime_ok k ref x mapping ->
+    let tr := C07.Model.lime_one score karg fit B k ref x t mapping Z in
+    C07.Model.tr_expl tr = lime_gather 0%Qc mapping (C07.Model.tr_coef tr) /\
+    length (C07.Model.tr_queries tr) = length Z /\
+    forall i p, i < length Z -> p < C07.Model.kind_size k ->
+      nthq (nth i (C07.Model.tr_queries tr) []) p
+      = if nth (p / C07.Model.kind_chan k) (lime_mask mapping (nth i Z [])) false
+        then nthq x p else nthq ref (p mod C07.Model.kind_chan k).
+Proof. exact C05.LimeLink.lime_explain_one_mapping. Qed.
+Print Assumptions C05_lime_explain_one_mapping.
+
+(* ------------------------------------------------------------------ occlusion_max_in_region
+   Occlusion on images / time series: if the score depends only on, and increases with, the features of a rectangle R
+   (rows r0..r1-1, columns c0..c1-1) and the occlusion value is not above the input on R, then the largest value of
+   the map is attained inside R, in the tie-tolerant sense: every position outside R is matched or beaten by a
+   position of R (its projection on the rectangle) — every geometry, every patch size and stride, every batch size.
+   (The strict arg-max can be outside: measured on the unchanged tree, an outside position sharing all its patches
+   with a region position ties with it.) *)
+Theorem C05_occlusion_max_in_region :
+  forall (score : list Qc -> list Qc -> Qc) h w c p0 p1 s0 s1 r0 r1 c0 c1,
+    r0 < r1 -> r1 <= h -> c0 < c1 -> c1 <= w ->
+    ignores_outside c (rect w r0 r1 c0 c1) score -> increasing score ->
+    forall bs v xs ts m,
+    geom_ok (Grid h w c p0 p1 s0 s1) -> bs_ok bs ->
+    (forall x, In x xs -> length x = geom_size (Grid h w c p0 p1 s0 s1)) ->
+    (forall x, In x xs -> forall k, k < length x -> rect w r0 r1 c0 c1 (k / c) = true -> (v <= nthq x k)%Qc) ->
+    In m (occlusion score (Grid h w c p0 p1 s0 s1) bs v xs ts) ->
+    forall p, p < h * w -> rect w r0 r1 c0 c1 p = false ->
+      exists p', p' < h * w /\ rect w r0 r1 c0 c1 p' = true /\ (nthq m p <= nthq m p')%Qc.
+Proof. exact occlusion_max_in_region. Qed.
+Print Assumptions C05_occlusion_max_in_region.
+
 (* ------------------------------------------------------------------ not proved
-   occlusion_max_in_region (stretch of DESIGN.md C05), full statement:
-     forall score g v x t R, geom_ok g -> R a rectangle -> ignores_outside (geom_chan g) R score -> increasing score ->
-       (forall k, v <= nthq x k) -> max_inside (geom_npos g) R (spec_map score g v x t).
    kernelshap_zero_additive is C07_kshap_exact (shared with C07).  The "largest attribution in the region" clause
-   for RISE / HSIC / Lime / KernelShap / Sobol-after-resize is statistical (DESIGN.md section 6). *)
+   for RISE / HSIC / Lime / KernelShap / Sobol-after-resize and for the Sobol estimators other than Jansen is
+   statistical (DESIGN.md section 6): support evidence from the correspondence only. *)
 
 (* non-vacuity: a 3x5 image and a 2x2 grid (2 divides neither 3 nor 5): row blocks {0} | {1,2}, column blocks
    {0,1} | {2,3,4}; region = the single pixel (0, 4): cell 1 is the only active cell; a score reading the features of
@@ -215,23 +235,18 @@ Proof.
   intros x x' t [_ H]. rewrite (H 8), (H 9) by reflexivity. reflexivity.
 Qed.
 
-(* ------------------------------------------------------------------ refuted for Homma / Saltelli (finding)
-   The property says "Sobol assigns them zero before upsampling" for all estimators.  The faithful model refutes it
-   for HommaEstimator and SaltelliEstimator: an inert cell receives exactly 1/n (the 1/n moment is divided by the
-   unbiased variance); GlenEstimator gives -1/(n-1) (observed on the implementation; needs sqrt, not stated here).
+(* ------------------------------------------------------------------ record of a defect found through this property
+   The property says "Sobol assigns them zero before upsampling" for all estimators.  The faithful model of the code
+   as found refuted it for HommaEstimator and SaltelliEstimator: an inert cell received exactly 1/n (the 1/n moment was
+   divided by the unbiased variance); GlenEstimator gave -1/(n-1) (C08_glen_zero_inert_refuted_orig).  Fixed in /repo
+   (469446f, 124b443); homma_orig / saltelli_orig are C08's transcriptions of the old code.
    Witness: 1x2 image, 2x2 grid, n = 2, score = first feature; cell 0 is read by no pixel. *)
-Theorem C05_sobol_zero_inert_refuted_homma_saltelli :
+Theorem C05_sobol_zero_inert_refuted_orig :
   exists (score : list Qc -> list Qc -> Qc) pf g H W C bs n A B x t (R : nat -> bool) i,
     bs_valid bs /\ is_matrix n (g * g) A /\ is_matrix n (g * g) B /\ i < g * g /\
     ignores_outside C R score /\ inert_cell g H W R i = true /\
     let low est := nth 0 (sobol_explain score est pf g H W C bs n (replicated_design (g * g) A B) [x] [t]) [] in
-    nthq (low jansen) i = 0%Qc /\ nthq (low janon) i = 0%Qc /\
-    nthq (low homma) i = (1 / qn n)%Qc /\ nthq (low saltelli) i = (1 / qn n)%Qc /\ (1 / qn n)%Qc <> 0%Qc.
-Proof.
-  exists refut_score, (fun _ => Baseline [0%Qc; 0%Qc]), 2, 1, 2, 1, None, 2, refut_A, refut_B,
-         [1%Qc; 1%Qc], [], refut_R, 0.
-  destruct sobol_zero_inert_refuted_homma_saltelli as (H1 & H2 & H3 & H4 & H5 & H6 & H7 & H8 & H9 & H10).
-  assert (E : (1 / qn 2)%Qc = q 1 2) by (apply Qceqb_eq; vm_compute; reflexivity).
-  repeat split; try assumption; try (apply H2); try (apply H3); try lia; cbv zeta; rewrite ?E; assumption.
-Qed.
-Print Assumptions C05_sobol_zero_inert_refuted_homma_saltelli.
+    nthq (low jansen) i = 0%Qc /\ nthq (low homma) i = 0%Qc /\
+    nthq (low homma_orig) i = (1 / qn n)%Qc /\ nthq (low saltelli_orig) i = (1 / qn n)%Qc /\ (1 / qn n)%Qc <> 0%Qc.
+Proof. exact sobol_zero_inert_refuted_orig_exists. Qed.
+Print Assumptions C05_sobol_zero_inert_refuted_orig.
